@@ -77,6 +77,28 @@ def _generated_systems(ck, ref, need_full):
     return out
 
 
+CODE_DIMS = ["length", "mass", "time", "temperature"]
+
+
+def _generated_code_registries(ck, ref, need_full):
+    """registries with their own code units (same symbol names, different sizes) and a unit system made of them, enumerated by TLC
+    (MC_C15_sys over the size alphabets of the reference data)"""
+    alpha = [ref["code_alphabet"][d] for d in CODE_DIMS]
+    cfg = open(ck.spec + "/MC_C15_sys.cfg").read().replace("Full = FALSE", "Full = " + ("TRUE" if need_full else "FALSE"))
+    open(ck.spec + "/MC_C15_code_run.cfg", "w").write(cfg)
+    res = ck.tlc("MC_C15_sys", "MC_C15_code_run", env={"SYS_DATA": ck.write_json("code_data.json", {"n": [len(a) for a in alpha]})}, workers=1,
+                 label="code-unit registry generator (size alphabets)", required_actions=["Next"], timeout=1200)
+    recs = sorted((r["pick"] for r in res.by_tag("SYS")))
+    if len(recs) != res.distinct - 1 or not recs:
+        raise MachineryFailure("code-unit registry generator exported nothing")
+    out = []
+    for pick in recs:
+        sizes = [alpha[d][pick[d] - 1] for d in range(len(CODE_DIMS))]
+        out.append({"id": "code_" + "".join(str(i) for i in pick), "kind": "codereg", "sizes": sizes, "cur": True, "mods": [], "core": False, "generated": False, "gensys": True, "pick": pick})
+    ck.cov["generated_code_registries"] = {"alphabet": {d: a for d, a in zip(CODE_DIMS, alpha)}, "count": len(out)}
+    return out
+
+
 def _build(ck):
     t = ck.pmap("impl_c15", "tables", [{}], nproc=1)[0]
     if "_error" in t:
@@ -129,8 +151,19 @@ def _build(ck):
         except Exception:  # noqa: BLE001
             wants_pairs = False
     configs += _generated_systems(ck, ref, (ck.tier == "thorough" and not ck.replay) or wants_pairs)
+    configs += _generated_code_registries(ck, ref, False)
     if (ck.tier == "thorough" and not ck.replay) or wants_generated:
         configs += _generated_configs(ck, t, cur_of)
+    # the configurations whose constants are compared with each other: rank order = the listed ones, then the code-unit registries
+    rank = {}
+    for c in configs:
+        if c["id"] in ref["pair_members"]:
+            rank[c["id"]] = 1 + ref["pair_members"].index(c["id"])
+    for c in configs:
+        if c["kind"] == "codereg":
+            rank[c["id"]] = len(rank) + 1
+    for c in configs:
+        c["pair"] = rank.get(c["id"], 0)
     rels = [dict(r, terms=[[qidx[a], e] for a, e in r["terms"]]) for r in ref["relations"]]
     use_ids = set(ref["use_configs"]["thorough" if ck.tier == "thorough" else "quick"])
     if ck.replay:
@@ -141,7 +174,7 @@ def _build(ck):
         "names": [{"n": r["n"], "ci": r["ci"], "ai": r["ai"], "qi": r["qi"], "isunit": r["isunit"], "bare": r["bare"]} for r in names],
         "quantities": [{"id": q["id"], "dim": _vec(q["dim"]), "cls": q["class"], "unit_enum": bool(q["unit_enum"]), "ci": q["ci"]} for q in quants],
         "relations": [{"id": r["id"], "terms": r["terms"], "form": r["form"]} for r in rels],
-        "configs": [{"id": c["id"], "kind": c["kind"], "cur": c["cur"], "core": c["core"], "gensys": bool(c.get("gensys")), "use": c["id"] in use_ids, "genmod": bool(c.get("generated") and not c.get("gensys")), "mods": [{"s": m[0], "l": m[1]} for m in c.get("mods", [])]} for c in configs],
+        "configs": [{"id": c["id"], "kind": c["kind"], "cur": c["cur"], "core": c["core"], "gensys": bool(c.get("gensys")), "use": c["id"] in use_ids, "pair": c["pair"], "genmod": bool(c.get("generated") and not c.get("gensys")), "mods": [{"s": m[0], "l": m[1]} for m in c.get("mods", [])]} for c in configs],
         "classes": ref["classes"],
         "diffdesign": ref["unit_different_by_design"],
     }
@@ -159,11 +192,14 @@ def _label(common, case):
     """human-readable, stable identification of a case"""
     k = case["kind"]
     cfg = common["configs"][case["cfg"] - 1]["id"]
-    if k in ("guise", "unit"):
+    if k in ("guise", "unit", "pair"):
         nm = common["names"][case["a"] - 1]
         row = common["rows"][nm["ci"] - 1]
         q = common["quantities"][nm["qi"] - 1]["id"] if nm["qi"] else ""
-        return {"name": nm["n"], "constant": row["k"], "quantity": q, "config": cfg}
+        lab = {"name": nm["n"], "constant": row["k"], "quantity": q, "config": cfg}
+        if k == "pair":
+            lab["config2"] = common["configs"][case["cfg2"] - 1]["id"]
+        return lab
     if k == "rel":
         return {"relation": common["relations"][case["a"] - 1]["id"], "config": cfg}
     return {"quantity": common["quantities"][case["a"] - 1]["id"]}
@@ -177,6 +213,9 @@ def _key(common, case, clause):
         key["route"] = case["route"]
     if case["kind"] == "rel":
         key["guise"] = case["g"]
+    if case["kind"] == "pair" or (case["kind"] == "unit" and case["route"] != "unit"):
+        key["guise"] = case["g"]
+        key["route"] = case["route"]
     return key
 
 
@@ -280,7 +319,9 @@ def _relocate(common, case):
     cfgno = {c["id"]: i + 1 for i, c in enumerate(common["configs"])}
     if "config" in case and case["config"] in cfgno:
         case["cfg"] = cfgno[case["config"]]
-    if case["kind"] in ("guise", "unit") and "name" in case:
+    if "config2" in case and case["config2"] in cfgno:
+        case["cfg2"] = cfgno[case["config2"]]
+    if case["kind"] in ("guise", "unit", "pair") and "name" in case:
         nameno = {r["n"]: i + 1 for i, r in enumerate(common["names"])}
         case["a"] = nameno.get(case["name"], case["a"])
     if case["kind"] == "rel" and "relation" in case:
@@ -289,7 +330,7 @@ def _relocate(common, case):
     if case["kind"] == "lit" and "quantity" in case:
         qno = {q["id"]: i + 1 for i, q in enumerate(common["quantities"])}
         case["a"] = qno.get(case["quantity"], case["a"])
-    return {k: case[k] for k in ("kind", "a", "g", "cfg", "route", "ops", "ip") if k in case}
+    return {k: case[k] for k in ("kind", "a", "g", "cfg", "route", "cfg2", "ops", "ip") if k in case}
 
 
 def run(ck):
@@ -329,13 +370,14 @@ def run(ck):
     use_future = use_pool.submit(_use_pipeline, ck, common, data_path)
     sel = "all"
     cfg = open(ck.spec + "/MC_C15.cfg").read().replace('CfgSel = "all"', f'CfgSel = "{sel}"')
+    cfg = cfg.replace("PairAll = FALSE", "PairAll = " + ck.q("FALSE", "TRUE")).replace("CodeInTable = FALSE", "CodeInTable = " + ck.q("FALSE", "TRUE"))
     open(ck.spec + "/MC_C15_run.cfg", "w").write(cfg)
     res = ck.tlc("MC_C15", "MC_C15_run", env={"CONST_DATA": data_path}, workers=1, label=f"case table, configurations={sel}", required_actions=["Next"], timeout=3000)
     cases = res.by_tag("CASE")
     if len(cases) != res.distinct - 1 or len(cases) < len(common["names"]):
         raise MachineryFailure(f"exported {len(cases)} cases for {res.distinct} states")
-    order = {"lit": 0, "unit": 1, "rel": 2, "guise": 3}
-    cases.sort(key=lambda r: (order[r["kind"]], r["cfg"], r["a"], r["g"], r["route"]))
+    order = {"lit": 0, "unit": 1, "rel": 2, "pair": 3, "guise": 4}
+    cases.sort(key=lambda r: (order[r["kind"]], r["cfg"], r["cfg2"], r["a"], r["g"], r["route"]))
     for r in res.by_tag("TABLE-FAIL"):
         cl = r["clause"]
         if cl == "RefRelHomog":
@@ -361,7 +403,7 @@ def run(ck):
     ck.sample({"case": cases[len(cases) // 2], "what": _label(common, cases[len(cases) // 2])})
     ck.sample({"case": cases[-1], "what": _label(common, cases[-1])})
 
-    obs = ck.pmap("impl_c15", "observe", [{k: r[k] for k in ("kind", "a", "g", "cfg", "route")} for r in cases], common=common)
+    obs = ck.pmap("impl_c15", "observe", [{k: r[k] for k in ("kind", "a", "g", "cfg", "route", "cfg2")} for r in cases], common=common)
     bad = [o for o in obs if "_error" in o]
     if bad:
         raise MachineryFailure("replay error: " + str(bad[0]))
